@@ -3,10 +3,11 @@
    string / ascii / nat stay the extracted inductive types.  No Extract Constant. *)
 Require Extraction.
 Require Import ExtrOcamlBasic.
-From PVBld Require Import Names Paths BoxCycle Pipeline.
+From PVBld Require Import Names Paths BoxCycle Pipeline Derive.
 
 Extraction "model.ml"
   display ident_token_ok rust_name emitted collides
   related_path wrelated_path resolve_item
   box_decisions is_nested union_cycle_b
-  layout layout_pred generate_unique_name lower_message lower_message_pinned.
+  layout layout_pred generate_unique_name lower_message lower_message_pinned
+  decisions verdict closed_b ws_complete_b btree_unsupported_b.
